@@ -62,7 +62,7 @@ func stageList(p *core.Prog) ([]*ssa.Function, *ssa.Function) {
 				continue
 			}
 			f, _ := core.FnValue(st.Val)
-			ents = append(ents, ent{i, core.Unbound(f)})
+			ents = append(ents, ent{i, core.Impl(core.Unbound(f))})
 		}
 	}
 	sort.Slice(ents, func(i, j int) bool { return ents[i].idx < ents[j].idx })
@@ -99,7 +99,7 @@ func runC01(c *Ctx) {
 						f, _ := core.FnValue(st.Val)
 						if core.PkgOf(fn) == "dnsforward" && core.FuncKey(fn) == "(*dnsforward.Server).newProxyConfig" {
 							nRH++
-							r.Check(core.Unbound(f) == h, "C01-D1", "request-handler", p.InstrPos(in), "the proxy's request handler is handleDNSRequest", "the proxy's request handler is no longer handleDNSRequest")
+							r.Check(core.SameFn(core.Unbound(f), h), "C01-D1", "request-handler", p.InstrPos(in), "the proxy's request handler is handleDNSRequest", "the proxy's request handler is no longer handleDNSRequest")
 						}
 					}
 				}
@@ -243,7 +243,7 @@ func c01Filtered(c *Ctx) {
 				if external[k] {
 					continue
 				}
-				if sc := x.Common().StaticCallee(); sc != nil && nonNil[sc] {
+				if sc := core.Callee(x.Common()); sc != nil && nonNil[sc] {
 					continue
 				}
 				return false
@@ -584,7 +584,7 @@ func c01Checkers(c *Ctx) {
 	} else {
 		isCheckCall := func(in ssa.Instruction) bool {
 			call, ok := in.(*ssa.Call)
-			if !ok || call.Common().StaticCallee() != nil || call.Common().IsInvoke() {
+			if !ok || core.Callee(call.Common()) != nil || call.Common().IsInvoke() {
 				return false
 			}
 			fr, _, ok := core.LoadedField(call.Common().Value)
